@@ -1,6 +1,7 @@
 (** Concrete inputs: the examples of the extension documents reproduced by the
-    transcription (LayoutSpec.v) and by the code model, and one witness inside every
-    known-finding class of KnownC11.v (all by computation). *)
+    transcription (LayoutSpec.v) and by the code model, one witness inside every
+    known-finding class of KnownC11.v, and the inputs of the four repaired classes on
+    which code model and documents now agree (all by computation). *)
 From Rocfl Require Import Base.Bytes Model.Layout Model.LayoutSpec Model.KnownC11.
 Open Scope N_scope.
 
@@ -117,40 +118,82 @@ Lemma casefold_sharp_s_panics :
   both (cfg6 sharp_delim) sharp_id [] = (Panic, Ok (b "b")) /\ c11_casefold (cfg6 sharp_delim) sharp_id = true.
 Proof. repeat split; vm_compute; reflexivity. Qed.
 
-Lemma zero_tuples_0003 :
-  both (cfg3 Sha256 0 0) (au (b "object-01")) sha256_object_01 = (Ok sha256_object_01, Ok (b "object-01")) /\
-  c11_0003_zero_tuples (cfg3 Sha256 0 0) = true /\ cfg_ok (cfg3 Sha256 0 0) = true.
+(** * the repaired classes: the former witnesses are now agreements *)
+(** 0003 without tuples (fix e1de1bb): the root is the encapsulation directory, also the
+    truncated one *)
+Lemma fixed_0003_zero_tuples :
+  both (cfg3 Sha256 0 0) (au (b "object-01")) sha256_object_01 = (Ok (b "object-01"), Ok (b "object-01")) /\
+  both (cfg3 Sha256 0 0) horrible sha256_horrible =
+    (Ok (b "%2e%2ehor%2frib%3ale-%24id"), Ok (b "%2e%2ehor%2frib%3ale-%24id")) /\
+  both (cfg3 Sha256 0 0) long101 sha256_long101 =
+    (Ok (b "abcdefghijabcdefghijabcdefghijabcdefghijabcdefghijabcdefghijabcdefghijabcdefghijabcdefghijabcdefghij-5cc73e648fbcff136510e330871180922ddacf193b68fdeff855683a01464220"),
+     Ok (b "abcdefghijabcdefghijabcdefghijabcdefghijabcdefghijabcdefghijabcdefghijabcdefghijabcdefghijabcdefghij-5cc73e648fbcff136510e330871180922ddacf193b68fdeff855683a01464220")) /\
+  side (cfg3 Sha256 0 0) (au (b "object-01")) sha256_object_01 = (true, true, false).
 Proof. repeat split; vm_compute; reflexivity. Qed.
 
+(** 0007 (fix 970818d): a control character is refused like a non-ASCII one; 0x20 and
+    0x7F, the ends of the documented range, are mapped *)
 Definition ctrl_id : ustr := au (bs [97; 58; 98; 1; 99]).      (* "a:b\x01c" *)
-Lemma ctrl_0007 :
-  both (cfg7 (au (b ":")) 3 3 true false) ctrl_id [] = (Ok (bs [48; 48; 48; 47; 48; 48; 48; 47; 98; 1; 99; 47; 98; 1; 99]), Err) /\
-  c11_0007_ctrl (cfg7 (au (b ":")) 3 3 true false) ctrl_id = true.
+Definition edge_id : ustr := au (bs [97; 58; 32; 127]).        (* "a: \x7f" *)
+Lemma fixed_0007_ctrl :
+  both (cfg7 (au (b ":")) 3 3 true false) ctrl_id [] = (Panic, Err) /\
+  both (cfg7 (au (b ":")) 3 3 true false) (au (bs [31])) [] = (Panic, Err) /\
+  both (cfg7 (au (b ":")) 3 3 true false) (au (bs [0; 58; 97])) [] = (Panic, Err) /\
+  both (cfg7 (au (b ":")) 2 2 true false) edge_id [] =
+    (Ok (bs [48; 48; 47; 32; 127; 47; 32; 127]), Ok (bs [48; 48; 47; 32; 127; 47; 32; 127])) /\
+  side (cfg7 (au (b ":")) 3 3 true false) ctrl_id sha256_object_01 = (true, true, false).
+Proof. repeat split; vm_compute; reflexivity. Qed.
+
+(** historical note: the behaviour BEFORE the two fixes, as separate definitions (not part
+    of the model), disagreed with the documents on these inputs *)
+Definition map_0003_before_fix (c : cfg) (id : ustr) (dg : bytes) : res bytes :=
+  if c_ts c =? 0 then Ok dg else map_0003 c id dg.
+Definition map_0007_before_fix (c : cfg) (id : ustr) : res bytes :=
+  if negb (is_ascii (us_bytes id)) then Panic else map_0007_mapped c id.
+Lemma history_before_fix :
+  map_0003_before_fix (cfg3 Sha256 0 0) (au (b "object-01")) sha256_object_01 = Ok sha256_object_01 /\
+  LayoutSpec.map (cfg3 Sha256 0 0) (au (b "object-01")) sha256_object_01 = Ok (b "object-01") /\
+  map_0007_before_fix (cfg7 (au (b ":")) 3 3 true false) ctrl_id =
+    Ok (bs [48; 48; 48; 47; 48; 48; 48; 47; 98; 1; 99; 47; 98; 1; 99]) /\
+  LayoutSpec.map (cfg7 (au (b ":")) 3 3 true false) ctrl_id [] = Err.
 Proof. repeat split; vm_compute; reflexivity. Qed.
 
 (** configurations *)
 Definition obj (ext alg ts nt short delim pad rv : jv) : raw := RawObj (mkRaw ext alg ts nt short delim pad rv).
 Definition is_accepted (r : res cfg) : bool := match r with Ok _ => true | _ => false end.
 
-Lemma cfg_bounds_accepted :
-  is_accepted (new true E0004 (obj JAbsent JAbsent (JNum 33) (JNum 1) JAbsent JAbsent JAbsent JAbsent)) = true /\
+(** numbers above 32 (fix d1aca14) are refused by code and documents: 33, 64, u32::MAX+1
+    squared (the former overflow panic) and usize::MAX, in debug and release arithmetic;
+    32 is still accepted *)
+Definition usize_max : N := 18446744073709551615.
+Lemma fixed_cfg_bounds :
+  new true E0004 (obj JAbsent JAbsent (JNum 33) (JNum 1) JAbsent JAbsent JAbsent JAbsent) = Err /\
   allowed E0004 (obj JAbsent JAbsent (JNum 33) (JNum 1) JAbsent JAbsent JAbsent JAbsent) = false /\
-  is_accepted (new true E0003 (obj JAbsent JAbsent (JNum 1) (JNum 64) JAbsent JAbsent JAbsent JAbsent)) = true /\
+  new true E0003 (obj JAbsent JAbsent (JNum 1) (JNum 64) JAbsent JAbsent JAbsent JAbsent) = Err /\
   allowed E0003 (obj JAbsent JAbsent (JNum 1) (JNum 64) JAbsent JAbsent JAbsent JAbsent) = false /\
-  c11_cfg_bounds E0004 (obj JAbsent JAbsent (JNum 33) (JNum 1) JAbsent JAbsent JAbsent JAbsent) = true.
+  new true E0004 (obj JAbsent JAbsent (JNum 4294967296) (JNum 4294967296) JAbsent JAbsent JAbsent JAbsent) = Err /\
+  new false E0004 (obj JAbsent JAbsent (JNum 4294967296) (JNum 4294967296) JAbsent JAbsent JAbsent JAbsent) = Err /\
+  new true E0003 (obj JAbsent JAbsent (JNum usize_max) (JNum usize_max) JAbsent JAbsent JAbsent JAbsent) = Err /\
+  new false E0003 (obj JAbsent JAbsent (JNum 0) (JNum usize_max) JAbsent JAbsent JAbsent JAbsent) = Err /\
+  is_accepted (new true E0004 (obj JAbsent (JStr (au (b "sha512"))) (JNum 32) (JNum 4) JAbsent JAbsent JAbsent JAbsent)) = true /\
+  allowed E0004 (obj JAbsent (JStr (au (b "sha512"))) (JNum 32) (JNum 4) JAbsent JAbsent JAbsent JAbsent) = true /\
+  is_accepted (new true E0003 (obj JAbsent (JStr (au (b "md5"))) (JNum 1) (JNum 32) JAbsent JAbsent JAbsent JAbsent)) = true.
 Proof. repeat split; vm_compute; reflexivity. Qed.
 
-Lemma cfg_overflow_panics :
-  new true E0004 (obj JAbsent JAbsent (JNum 4294967296) (JNum 4294967296) JAbsent JAbsent JAbsent JAbsent) = Panic /\
-  is_accepted (new false E0004 (obj JAbsent JAbsent (JNum 4294967296) (JNum 4294967296) JAbsent JAbsent JAbsent JAbsent)) = true.
-Proof. split; vm_compute; reflexivity. Qed.
-
-Lemma cfg_short_root_accepted :
-  is_accepted (new true E0004 (obj JAbsent JAbsent (JNum 4) (JNum 16) (JBool true) JAbsent JAbsent JAbsent)) = true /\
+(** shortObjectRoot with the whole digest in the tuples (fix a91c61b) is refused; one
+    character less than the digest is accepted, and so is the whole digest without
+    shortObjectRoot *)
+Lemma fixed_cfg_short_root :
+  new true E0004 (obj JAbsent JAbsent (JNum 4) (JNum 16) (JBool true) JAbsent JAbsent JAbsent) = Err /\
   allowed E0004 (obj JAbsent JAbsent (JNum 4) (JNum 16) (JBool true) JAbsent JAbsent JAbsent) = false /\
-  c11_cfg_short_root E0004 (obj JAbsent JAbsent (JNum 4) (JNum 16) (JBool true) JAbsent JAbsent JAbsent) = true /\
-  Layout.map (cfg4 Sha256 4 16 true) (au (b "object-01")) sha256_object_01 =
-    Ok (b "3c0f/f424/0c1e/116d/ba14/c762/7f23/19b5/8aa3/d776/06d0/d90d/fc61/6160/8ac9/87d4/").
+  is_accepted (new true E0004 (obj JAbsent JAbsent (JNum 4) (JNum 16) (JBool false) JAbsent JAbsent JAbsent)) = true /\
+  allowed E0004 (obj JAbsent JAbsent (JNum 4) (JNum 16) (JBool false) JAbsent JAbsent JAbsent) = true /\
+  is_accepted (new true E0004 (obj JAbsent JAbsent (JNum 7) (JNum 9) (JBool true) JAbsent JAbsent JAbsent)) = true /\
+  allowed E0004 (obj JAbsent JAbsent (JNum 7) (JNum 9) (JBool true) JAbsent JAbsent JAbsent) = true /\
+  both (cfg4 Sha256 7 9 true) (au (b "object-01")) sha256_object_01 =
+    (Ok (b "3c0ff42/40c1e11/6dba14c/7627f23/19b58aa/3d77606/d0d90df/c616160/8ac987d/4"),
+     Ok (b "3c0ff42/40c1e11/6dba14c/7627f23/19b58aa/3d77606/d0d90df/c616160/8ac987d/4")) /\
+  new true E0004 (RawSeq [JStr (au (ext_name E0004)); JStr (au (b "md5")); JNum 2; JNum 16; JBool true]) = Err.
 Proof. repeat split; vm_compute; reflexivity. Qed.
 
 Lemma cfg_0007_defaults_refused :
